@@ -7,7 +7,5 @@ package handlers
 //@ type baseHandler invariant [made] self.done != nil && self.commands != nil
 //@ type MaprHandler invariant [aggregate] self.aggregate != nil
 
-//@ func (*baseHandler).handleMessage
-//@   assigns nothing
 //@ func (*HealthHandler).handleMessage
 //@   assigns h.baseHandler.status
